@@ -28,6 +28,31 @@ def related_variants(src):
     return [swapped, src.rstrip("\n") + "\ndef zz_fault: Int := \"s\"\n", only_classes, src.rstrip("\n") + "\ndef := (\n"]
 
 
+def verdict_edges():
+    """Small programs whose verdict hangs on ONE lookup among several candidates: an operator between Int and Float operands
+    in both orders (the overload of the left operand's class decides), as literals, variables and fields; and a field that a
+    child class declares again with another type, read through the child. Fixed list (about 110 programs)."""
+    out = []
+    vals = {"Int": ["3", "vi", "va.a"], "Float": ["2.5", "vf", "vb.b"]}
+    head = "class A(def a: Int)\nclass B(def b: Float)\ndef vi: Int := 3\ndef vf: Float := 2.5\ndef va := A(1)\ndef vb := B(0.5)\n"
+    for op in ["+", "-", "*", "/", "//", "mod", "^", "<", "=", ">="]:
+        for l, r in (("Int", "Float"), ("Float", "Int"), ("Int", "Int")):
+            for n in range(3):
+                a, b = vals[l][n], vals[r][(n + 1) % 3]
+                out.append({"gen": "edge", "src": head + "def r := %s %s %s\nprint(r)\n" % (a, op, b), "annotate": n != 1})
+    types = ["Int", "Float", "Str"]
+    lit = {"Int": "2", "Float": "1.5", "Str": '"s"'}
+    for pt in types:
+        for ct in types:
+            if pt == ct:
+                continue
+            base = "class Pa\n    def v: %s := %s\nclass Ch: Pa\n    def v: %s := %s\ndef b := Ch()\n" % (pt, lit[pt], ct, lit[ct])
+            out.append({"gen": "edge", "src": base + "def u: %s := b.v\nprint(u)\n" % ct, "annotate": True})
+            out.append({"gen": "edge", "src": base + "def u: %s := b.v\nprint(u)\n" % pt, "annotate": False})
+            out.append({"gen": "edge", "src": base + "def w := b.v\nprint(w)\n", "annotate": True})
+    return out
+
+
 class C12:
     id = "C12"
     cases = {"quick": 18, "thorough": 600}
@@ -56,6 +81,8 @@ class C12:
         seeds = corpus.all_seeds()
         for name, text in seeds:
             yield {"gen": "seed", "name": name, "src": text}
+        for c in verdict_edges():
+            yield c
         # two-file projects from consecutive valid samples
         valid = corpus.own_seeds() + corpus.repo_samples("valid")
         for i in range(0, len(valid) - 1, 7):
